@@ -416,9 +416,9 @@ func (fr *Frame) binop(in *ssa.BinOp) *GVal {
 		case token.LEQ:
 			return res(App("f64.leq", SBool, x, y))
 		case token.GTR:
-			return res(App("f64.gt", SBool, x, y))
+			return res(App("f64.lt", SBool, y, x)) // a > b is b < a (IEEE: both false on NaN)
 		case token.GEQ:
-			return res(App("f64.geq", SBool, x, y))
+			return res(App("f64.leq", SBool, y, x)) // a >= b is b <= a
 		case token.EQL:
 			return res(App("fp.eq", SBool, x, y))
 		case token.NEQ:
